@@ -14,6 +14,12 @@
 //	                          sides of the declared size and prints what must be on the wire and what the reader must
 //	                          do; sweep.go sends real objects of exactly these lengths over real sessions in all modes.
 //	                          Its EDGE records (distances from a limit) place RHP3/RHP4/gateway messages around theirs.
+//	spec/net/Exchanges.tla    several RPC exchanges on one connection with the per-exchange preambles of each protocol
+//	                          (alignment, order, nothing left behind); exchanges.go carries every conversation out on one
+//	                          real RHP2 session / RHP3 stream / RHP4 stream / gateway stream.
+//	spec/net/Cuts.tla         a frame cut after c bytes, then the end of the connection: never delivered, session closed,
+//	                          whether the reader's full read got nothing (io.EOF) or a part; cuts.go cuts real frames at
+//	                          every offset on every read path and feeds every proper prefix of a message to every reader.
 //	spec/net/Reuse.tla        receiver reuse: the buffer-reusing decoder (length, capacity, reset, chunked growth) over
 //	                          every sequence of data lengths, and "decoding replaces" for any receiver; reuse.go reads
 //	                          real responses of these lengths into one reused real object over real RHP2/RHP3 sessions
@@ -407,7 +413,7 @@ func main() {
 		phases[name] = float64(time.Since(tPhase).Milliseconds()) / 1000
 		tPhase = time.Now()
 	}
-	c.Rule("Sessions: TLC enumerates every conversation of Session.tla (length ≤ MaxMsgs, frame kinds object/error response, ≤ 2 faults out of lenup/lendn/lenhi/nonce/body/pad/tag/trunc/ext on distinct frames) with the demanded outcome; each replayed case = one schedule on one real RHP2 transport pair in one mode (requests renter→host, responses host→renter, raw responses + VerifyTag); non-trivial = at least one fault, or ≥ 2 frames delivered. Size sweep: TLC (FrameSizes.tla) walks every encoded object length within W bytes of a boundary of the RHP2 framing rules (pad / do not pad; at / above the floor of the reader's limit) and per length the caller's limits on both sides of the declared size; one evaluation = one real object of exactly that length moved over a real transport pair in one mode (request, response, raw response), compared with the demanded wire size, verdict, identity and bytes consumed; distinct = distinct (mode, length, limit); repeats in other orders are not counted as distinct. Receiver reuse: TLC (Reuse.tla) enumerates every sequence of data lengths (≤ MaxSteps messages) for one reused and for fresh receivers; one evaluation = one real response (RHP2 RPCReadResponse through ReadResponse and through RawResponse; RHP3 ExecuteProgram response / request) read on a real session into that receiver and compared; distinct = (mode, receiver, sequence). Dirty receivers: every DIRTY case (held zero/one/few/many elements × arriving zero/one/few/many; optional set/unset) × every registered wire type of gateway/RHP2/RHP3/RHP4: one evaluation = one real object decoded by the real decoder into a receiver holding another real object, compared with the bytes sent; non-trivial = all but (zero, zero). Handshake: every (genesis, unique id)² × in-flight rewrite of version/genesis/unique id; non-trivial = all. Framing: one line = one real object of a stated shape written by the real writer and read by the real reader (or one never-ending stream, or one error response); non-trivial = distinct (object, shape, limit) lines whose message is not empty.")
+	c.Rule("Sessions: TLC enumerates every conversation of Session.tla (length ≤ MaxMsgs, frame kinds object/error response, ≤ 2 faults out of lenup/lendn/lenhi/nonce/body/pad/tag/trunc/ext on distinct frames) with the demanded outcome; each replayed case = one schedule on one real RHP2 transport pair in one mode (requests renter→host, responses host→renter, raw responses + VerifyTag); non-trivial = at least one fault, or ≥ 2 frames delivered. Size sweep: TLC (FrameSizes.tla) walks every encoded object length within W bytes of a boundary of the RHP2 framing rules (pad / do not pad; at / above the floor of the reader's limit) and per length the caller's limits on both sides of the declared size; one evaluation = one real object of exactly that length moved over a real transport pair in one mode (request, response, raw response), compared with the demanded wire size, verdict, identity and bytes consumed; distinct = distinct (mode, length, limit); repeats in other orders are not counted as distinct. Exchanges: TLC (Exchanges.tla) enumerates every conversation of ≤ 3 exchanges on one connection (request object or not; 1-2 responses, objects or error responses; the per-exchange preambles of the protocol) per protocol; one replayed conversation = all of it on ONE real RHP2 session / RHP3 stream / RHP4 stream / gateway stream; evaluations = exchanges completed; distinct = conversations. Cuts: TLC (Cuts.tla) walks every cut point of a padded RHP2 frame and the boundary set of a larger one; one evaluation = one real frame cut at that offset on one read path (ReadID, ReadRequest, ReadResponse, RawResponse) followed by the end of the connection, judged on delivery and on the session being closed; plus every proper prefix of one message of every wire type through its real reader (one evaluation each, one distinct per type). Receiver reuse: TLC (Reuse.tla) enumerates every sequence of data lengths (≤ MaxSteps messages) for one reused and for fresh receivers; one evaluation = one real response (RHP2 RPCReadResponse through ReadResponse and through RawResponse; RHP3 ExecuteProgram response / request) read on a real session into that receiver and compared; distinct = (mode, receiver, sequence). Dirty receivers: every DIRTY case (held zero/one/few/many elements × arriving zero/one/few/many; optional set/unset) × every registered wire type of gateway/RHP2/RHP3/RHP4: one evaluation = one real object decoded by the real decoder into a receiver holding another real object, compared with the bytes sent; non-trivial = all but (zero, zero). Handshake: every (genesis, unique id)² × in-flight rewrite of version/genesis/unique id; non-trivial = all. Framing: one line = one real object of a stated shape written by the real writer and read by the real reader (or one never-ending stream, or one error response); non-trivial = distinct (object, shape, limit) lines whose message is not empty.")
 	c.Assume("in-memory net.Pipe pairs with a byte-rewriting proxy stand for the network; deadlines only classify a starved read as 'not delivered'")
 	c.Assume("authentication inside go.sia.tech/mux (gateway, RHP3) is not modelled: there only end-to-end delivery and prefix-safety under a flipped bit are checked")
 	c.Assume("gateway objects have no exported encoder: their wire size is mirrored from the exported encoders of the field types; acceptance is observed on the real stream reader")
@@ -430,6 +436,12 @@ func main() {
 	var reuseStates int64
 	wgSizes.Add(1)
 	go func() { defer wgSizes.Done(); reuseCases, dirtyCases, reuseStates = loadReuse(c) }()
+	var cutCases map[string]cutCase
+	var exchCases map[string]exchCase
+	var cutStates, exchStates int64
+	wgSizes.Add(2)
+	go func() { defer wgSizes.Done(); cutCases, cutStates = loadCuts(c) }()
+	go func() { defer wgSizes.Done(); exchCases, exchStates = loadExchanges(c) }()
 	fm := c.MustTLC(vlib.TLCOpts{SpecDirs: []string{"net"}, Module: "Framing", Config: "Framing.cfg", Workers: 8})
 	c.Cov("framing_model_states", fm.Distinct)
 	sessCfgs := []string{"Session3.cfg"} // ≤ 3 frames, ≤ 2 faults
@@ -458,6 +470,10 @@ func main() {
 	wgSizes.Wait()
 	c.Cov("frame_size_model_states", szm.Distinct)
 	c.Cov("reuse_model_states", reuseStates)
+	c.Cov("cut_model_states", cutStates)
+	c.Cov("cut_cases_enumerated", len(cutCases))
+	c.Cov("exchange_model_states", exchStates)
+	c.Cov("exchange_conversations_enumerated", len(exchCases))
 	c.Cov("reuse_sequences_enumerated", len(reuseCases))
 	c.Cov("dirty_receiver_cases_enumerated", len(dirtyCases))
 	c.Cov("size_cases_enumerated", len(sizes))
@@ -583,6 +599,12 @@ func main() {
 	dt := runDirty(c, dirtyCases, r)
 	selftestReuse(c)
 	phase("receiver_reuse")
+	// several exchanges on one connection (Exchanges.tla); frames cut in transit (Cuts.tla)
+	xt := runExchanges(c, exchCases, r)
+	phase("exchanges_on_one_connection")
+	ct := runCuts(c, cutCases, r)
+	selftestCuts(c)
+	phase("cut_frames")
 
 	// handshakes
 	hkeys := make([]string, 0, len(hss))
@@ -698,10 +720,13 @@ func main() {
 		dir := []string{"ab", "ba"}[r.Intn(2)]
 		conv("gateway", gwConversation, 3+r.Intn(3), flipPlan{On: true, Dir: dir, Off: int64(r.Intn(30000))})
 		conv("rhp3", rhp3Conversation, 3+r.Intn(3), flipPlan{On: true, Dir: dir, Off: int64(r.Intn(30000))})
+		// the multiplexed connection cut at some offset: whatever arrives is an unaltered prefix
+		conv("gateway", gwConversation, 3+r.Intn(3), flipPlan{On: true, Cut: true, Dir: dir, Off: int64(r.Intn(30000))})
+		conv("rhp3", rhp3Conversation, 3+r.Intn(3), flipPlan{On: true, Cut: true, Dir: dir, Off: int64(r.Intn(30000))})
 	}
 	parallel(8, cjobs)
 	wgSlow.Wait()
-	c.Traces(evals + sw.sessions + ru.sessions)
+	c.Traces(evals + sw.sessions + ru.sessions + xt.sessions + ct.sessions)
 	phase("handshakes_keyexchange_conversations")
 
 	// vacuity guards: sessions
@@ -755,7 +780,7 @@ func main() {
 		b, _ := json.Marshal(l)
 		distinct[string(b)] = true
 	}
-	c.Count(evals+sw.evals+ru.evals+dt.evals+int64(len(rec.lines)), nontriv+sw.distinct+ru.distinct+dt.distinct+int64(len(distinct)))
+	c.Count(evals+sw.evals+ru.evals+dt.evals+xt.evals+ct.evals+int64(len(rec.lines)), nontriv+sw.distinct+ru.distinct+dt.distinct+xt.distinct+ct.distinct+int64(len(distinct)))
 	objs := make([]string, 0, len(rec.objs))
 	perFam := map[string]int{}
 	for o := range rec.objs {
@@ -884,6 +909,18 @@ func replay(c *vlib.Ctx) {
 			rc.Obs = o
 			c.Violation(key, what, rc)
 		}
+	case "exchanges":
+		var run exchRun
+		json.Unmarshal(f.Case, &run)
+		run.Obs = nil
+		o, _ := runExchangeCase(c, run)
+		fmt.Printf("replay exchanges %s: observed %+v\n", run.Case.key(), o)
+	case "cut":
+		var run cutRun
+		json.Unmarshal(f.Case, &run)
+		run.Obs = nil
+		o, _ := runCutCase(c, run)
+		fmt.Printf("replay cut %s %s: observed %+v\n", run.Path, run.Case.key(), o)
 	case "reuse":
 		var run reuseRun
 		json.Unmarshal(f.Case, &run)
